@@ -220,11 +220,11 @@ def run(ctx):
                 jobs.append((ctx.bins, cfg, part))
     # random Unicode
     rng = ctx.sub_rng("unicode")
-    nrand = 4000 if quick else 60000
+    nrand = 4000 if quick else 200000
     rand = [gen.random_unicode(rng, 14) for _ in range(nrand // 2)] + [gen.hostile_text(rng) for _ in range(nrand // 2)]
     rng.shuffle(rand)        # the slices taken below (rand[:N]) must meet both kinds
     for cfg in allcfg:
-        sub = rng.sample(rand, 400 if quick else 4000)
+        sub = rng.sample(rand, 400 if quick else 12000)
         jobs.append((ctx.bins, cfg, sub))
     results = core.pmap(work, jobs)
     nsamples = 0
@@ -270,7 +270,7 @@ def run(ctx):
     ctx.rule = ("exhaustive strings over %r up to length %d x %d settings (separator x lowercase x keep_zeros x max_length)%s, plus %d random "
                 "Unicode / hostile strings per setting, the integer sanitiser, the three named presets and the template function sanitize(...) in %d argument combinations; every output re-sanitised "
                 "(idempotence). non-trivial = (setting, input) pairs whose output differs from the input" % (
-                    "".join(ALPHABET), 5, len(allcfg), "" if quick else " and the complete length-6 layer", 400 if quick else 4000, len(TPL_COMBOS)))
+                    "".join(ALPHABET), 5, len(allcfg), "" if quick else " and the complete length-6 layer", 400 if quick else 12000, len(TPL_COMBOS)))
     ctx.assumptions = ["the probe links the zerv library built from /repo's working tree; Sanitizer::sanitize is called directly",
                        "two admissible truncation windows for inputs starting with a non-alphanumeric character (DESIGN C16)",
                        "separator=None: only length, idempotence and no-panic are asserted"]
